@@ -1,6 +1,7 @@
 import PharmpyModel.Core.Sexp
 import PharmpyModel.C08.FV
 import PharmpyModel.Generated.MflFeatures
+import PharmpyModel.C08.Ledger
 open Pharmpy Pharmpy.C08
 
 /-! Line-protocol driver for C08 (plumbing only). -/
@@ -127,14 +128,26 @@ def defectS : Option DefectClass → Sexp
 def mflS (e : MflEntry) : Sexp :=
   .list [.atom e.category, .atom e.mode, .atom e.setter, .list (e.kwargs.map (fun (k, v) => .list [.atom k, .atom v]))]
 
+def natsOf? (x : Sexp) : Option (List Nat) := do
+  let xs ← x.asList?
+  xs.mapM Sexp.asNat?
+
+def siteOf? : Sexp → Option Site
+  | .list [i, rs] => do some ⟨← i.asNat?, ← natsOf? rs⟩
+  | _ => none
+
+def pmodelOf? (sites params : Sexp) : Option PModel := do
+  let ss ← sites.asList?
+  some ⟨← ss.mapM siteOf?, ← natsOf? params⟩
+
 def handle (req : Sexp) : Sexp :=
   match req with
-  | .list [.atom "step", r, s, mdt] =>
-    match reqOf? r, fvOf? s, mdt.asBool? with
-    | some r, some s, some mdt =>
-      let o := setFV ⟨mdt⟩ r s
-      .list [outcomeS o, Sexp.ofBool (Allowed r s o), defectS (defectOf ⟨mdt⟩ r s), reqS (undo r s), Sexp.ofBool (additive r s)]
-    | _, _, _ => bad
+  | .list [.atom "step", r, s, clash, stale] =>
+    match reqOf? r, fvOf? s, clash.asBool?, stale.asBool? with
+    | some r, some s, some clash, some stale =>
+      let o := setFV ⟨clash, stale⟩ r s
+      .list [outcomeS o, Sexp.ofBool (Allowed r s o), defectS (defectOf ⟨clash, stale⟩ r s), reqS (undo r s), Sexp.ofBool (additive r s)]
+    | _, _, _, _ => bad
   | .list [.atom "canon", s] =>
     match fvOf? s with
     | some s => stateS (canon s)
@@ -153,6 +166,16 @@ def handle (req : Sexp) : Sexp :=
              Sexp.ofBool g.hasLagTime, Sexp.ofBool g.hasBio,
              (match detect st with | some fv => fvS fv | none => .atom "none")]
     | none => bad
+  | .list [.atom "pdead", sites, params] =>
+    match pmodelOf? sites params with
+    | some m => Sexp.ofNats m.dead
+    | none => bad
+  | .list [.atom "premove", sites, params, toP, fromP] =>
+    match pmodelOf? sites params, toP.asNat?, fromP.asNat? with
+    | some m, some a, some b =>
+      let r := removePeripheral m a b
+      .list [Sexp.ofNats r.params, Sexp.ofNats r.dead]
+    | _, _, _ => bad
   | .list [.atom "mfl"] => .list (mflTable.map mflS)
   | _ => bad
 
